@@ -35,9 +35,25 @@ def cases(tier, seed):
                                   pool=pool)}
 
 
+def cases2(tier, seed):
+  """thorough: the constant-bearing operator behind another operator"""
+  for t, v in CONST_OPS:
+    ar = irm.arity(t, v)
+    if ar == 0:
+      continue
+    for pre in ('TANH', 'FULLY_CONNECTED', 'ABS'):
+      for wk in ('rand', 'outlier', 'neg', 'tie'):
+        for pool in (0, 1, 2, 3):
+          yield {'ir': irm.single([irm.op(pre), irm.op(t, v, [1] * ar, wk=wk)],
+                                  pool=pool)}
+
+
 def plan(tier, seed):
   return {
-      'cases': cases(tier, seed), 'chunk': 4,
+      'cases': (cases(tier, seed) if tier == 'quick' else
+                __import__('itertools').chain(cases(tier, seed),
+                                              cases2(tier, seed))),
+      'chunk': 4,
       'budget_s': 240 if tier == 'quick' else 2400,
       'rule': ('E1 restricted to one-operator contexts: every constant-bearing '
                'operator variant x input shapes (rank 4/2, odd element counts, '
